@@ -588,6 +588,75 @@ TEXT_EDITS = [
     ('hamiltonian.py', "    sq2 = np.sqrt(2.)", "    sq2 = 2.**0.5", 'silent', ['C06'], 'spin-1: sqrt(2) as a power (benign)'),
     ('hamiltonian.py', "    Sz  = np.array([[1.,  0.,  0.], [0.,  0.,  0. ], [0.,  0., -1.]])", "    Sz  = np.array([[1.,  0.,  0.], [0.,  0.,  1. ], [0.,  0., -1.]])",
      'violation', ['C06'], 'spin-1: S_z with an off-diagonal entry'),
+    # hand-written harmless spellings that were reported at first (DESIGN.md section 14, seventh round)
+    ('operation.py', "    for i in reversed(range(psi.nsites)):\n        T = contraction_step_right(psi.A[i], chi.A[i], T)",
+     "    for i in range(psi.nsites - 1, -1, -1):\n        T = contraction_step_right(psi.A[i], chi.A[i], T)",
+     'silent', ['C04'], 'vdot: descending range written with a negative step (benign)'),
+    ('krylov.py', "        alpha[j] = np.vdot(w, V[j]).real\n        w -= alpha[j]*V[j] + (beta[j-1]*V[j-1] if j > 0 else 0)",
+     "        alpha[j] = np.real(np.vdot(w, V[j]))\n        w -= alpha[j]*V[j] + (beta[j-1]*V[j-1] if j > 0 else 0)",
+     'silent', ['C08', 'C09', 'C14'], 'lanczos_iteration: np.real(.) for .real (benign)'),
+    ('mps.py', "        psi = self.A[0]\n        for i in range(1, len(self.A)):\n            psi = merge_mps_tensor_pair(psi, self.A[i])",
+     "        psi = self.A[0]\n        for i in range(1, self.nsites):\n            psi = merge_mps_tensor_pair(psi, self.A[i])",
+     'silent', ['C03'], 'MPS.as_vector: number of sites spelled self.nsites (benign)'),
+    ('mps.py', "            nrm = T[0, 0, 0].real\n            if nrm < 0:\n                # flip sign such that normalization factor is always non-negative\n                self.A[-1] = -self.A[-1]\n                nrm = -nrm",
+     "            nrm = np.real(T[0, 0, 0])\n            if nrm < 0:\n                # flip sign such that normalization factor is always non-negative\n                self.A[-1] = -self.A[-1]\n                nrm = abs(nrm)",
+     'silent', ['C01', 'C13'], 'MPS.orthonormalize: np.real(.) for .real and abs(.) for the negation of a negative number (benign)'),
+    ('bond_ops.py', 's[sort_idx] = np.cumsum(s[sort_idx])', 's[sort_idx] = s[sort_idx].cumsum()', 'silent', ['C12', 'C13'],
+     'retained_bond_indices: method form of cumsum (benign)'),
+    ('opchain.py', "        for oid in self.oids:\n            op = np.kron(op, opmap[oid])",
+     "        for k in range(len(self.oids)):\n            op = np.kron(op, opmap[self.oids[k]])",
+     'silent', ['C03', 'C17'], 'OpChain.as_matrix: index loop over the operator ids (benign)'),
+    ('mps.py', "mps.A[0] = np.block([mps0.A[0], alpha*mps1.A[0]])", "mps.A[0] = np.block([mps0.A[0], mps1.A[0]*alpha])",
+     'silent', ['C02', 'C03'], 'add_mps: scalar factor written on the right (equal up to the last bit of a complex product)'),
+    ('mps.py', "mps.A[0] = np.block([mps0.A[0], alpha*mps1.A[0]])", "mps.A[0] = np.block([mps0.A[0], mps1.A[0]])",
+     'violation', ['C03'], 'add_mps: scale dropped from the multi-site branch'),
+    ('mpo.py', "op.A[-1] = np.block([[op0.A[-1]], [op1.A[-1]]])", "op.A[-1] = np.concatenate((op0.A[-1], op1.A[-1]), axis=3)",
+     'violation', ['C03'], 'add_mpo: last tensor stacked along the wrong bond axis'),
+    ('mpo.py', "op.A[-1] = np.block([[op0.A[-1]], [op1.A[-1]]])", "op.A[-1] = np.concatenate((op1.A[-1], op0.A[-1]), axis=2)",
+     'violation', ['C03'], 'add_mpo: last tensor stacked in the wrong operand order'),
+    ('operation.py', "    for i in reversed(range(psi.nsites)):\n        T = contraction_step_right(psi.A[i], chi.A[i], T)",
+     "    for i in range(psi.nsites - 1, 0, -1):\n        T = contraction_step_right(psi.A[i], chi.A[i], T)",
+     'violation', ['C04'], 'vdot: descending range that stops before site 0'),
+    ('bond_ops.py', "Qsub, Rsub = np.linalg.qr(A[i0:i1, j0:j1], mode='reduced')", "Qsub, Rsub = np.linalg.qr(A[i0:i1, j0:j1])",
+     'silent', ['C01', 'C02', 'C11'], "qr: mode left at its default, which is 'reduced' (benign)"),
+    ('bond_ops.py', "    max_interm_dim = min(A.shape)\n\n    # keep track of intermediate dimension\n    D = 0\n\n    Q = np.zeros(",
+     "    max_interm_dim = min(A.shape[0], A.shape[1])\n\n    # keep track of intermediate dimension\n    D = 0\n\n    Q = np.zeros(",
+     'silent', ['C01', 'C02', 'C11'], 'qr: min of the two extents spelled out (benign)'),
+    ('bond_ops.py', "    max_interm_dim = min(A.shape)\n\n    # keep track of intermediate dimension\n    D = 0\n\n    Q = np.zeros(",
+     "    max_interm_dim = A.shape[1]\n\n    # keep track of intermediate dimension\n    D = 0\n\n    Q = np.zeros(",
+     'violation', ['C11'], 'qr: intermediate dimension bounded by the number of columns only'),
+    ('optree.py', "        if edge.node.is_leaf():\n            op_subtree = np.identity(1)\n        else:\n            op_subtree = _subtree_as_matrix(edge.node, opmap)",
+     "        op_subtree = np.identity(1) if edge.node.is_leaf() else _subtree_as_matrix(edge.node, opmap)",
+     'silent', ['C03', 'C17'], '_subtree_as_matrix: conditional expression for the leaf case (benign)'),
+    ('optree.py', "        op_sum = op_sum + op\n    return op_sum", "        op_sum = np.add(op_sum, op)\n    return op_sum",
+     'silent', ['C03', 'C17'], '_subtree_as_matrix: np.add for + (benign)'),
+    ('opgraph.py', "            if tree.istart > 0:\n                # insert identities between start node and beginning of tree\n                nid_root = max(graph.nodes.keys()) + 1",
+     "            if tree.istart >= 1:\n                # insert identities between start node and beginning of tree\n                nid_root = max(graph.nodes) + 1",
+     'silent', ['C17', 'C16'], 'from_optrees: `>= 1` for `> 0` on an integer, max over the table itself (benign)'),
+    ('opgraph.py', "            if tree.istart > 0:\n                # insert identities between start node and beginning of tree\n                nid_root = max(graph.nodes.keys()) + 1",
+     "            if tree.istart >= 0:\n                # insert identities between start node and beginning of tree\n                nid_root = max(graph.nodes.keys()) + 1",
+     'violation', ['C17'], 'from_optrees: identity padding also for a tree that starts at site 0'),
+    ('opgraph.py', "        next_nid = max(max(self.nodes.keys()), max(other.nodes.keys())) + 1", "        next_nid = 1 + max(max(self.nodes.keys()), max(other.nodes.keys()))",
+     'silent', ['C16'], 'OpGraph.add: `1 + max(..)` (benign)'),
+    ('evolution.py', "        # rightmost tensor pair\n        i = L - 2\n", "        # rightmost tensor pair\n        i = psi.nsites - 2\n",
+     'silent', ['C08', 'C09'], 'integrate_local_twosite: turning point written with psi.nsites (benign)'),
+    ('evolution.py', "        # rightmost tensor pair\n        i = L - 2\n", "        # rightmost tensor pair\n        i = L - 3\n",
+     'violation', ['C08', 'C09'], 'integrate_local_twosite: turning point one pair too far left'),
+    ('opgraph.py', "        nids_active = [sorted(list(s0 & s1)) for s0, s1 in zip(nids_active_dir[0], nids_active_dir[1])]",
+     "        nids_active = [sorted(s0.intersection(s1)) for s0, s1 in zip(*nids_active_dir)]",
+     'silent', ['C17'], 'from_automaton: intersection method and zip(*..) (benign)'),
+    ('opgraph.py', "        nids_active = [sorted(list(s0 & s1)) for s0, s1 in zip(nids_active_dir[0], nids_active_dir[1])]",
+     "        nids_active = [sorted(list(s0 | s1)) for s0, s1 in zip(nids_active_dir[0], nids_active_dir[1])]",
+     'violation', ['C17'], 'from_automaton: union instead of intersection of the reachable sets'),
+    ('opgraph.py', "            for node_autop in [autop.nodes[nid_autop] for nid_autop in nids_active[i + 1]]:\n                node = OpGraphNode(nid_next, [], [], node_autop.qnum)",
+     "            for nid_autop in nids_active[i + 1]:\n                node_autop = autop.nodes[nid_autop]\n                node = OpGraphNode(nid_next, [], [], node_autop.qnum)",
+     'silent', ['C17'], 'from_automaton: loop over the ids of the next layer, node looked up in the body (benign)'),
+    ('opgraph.py', "            for node_autop in [autop.nodes[nid_autop] for nid_autop in nids_active[i + 1]]:\n                node = OpGraphNode(nid_next, [], [], node_autop.qnum)",
+     "            for nid_autop in nids_active[i]:\n                node_autop = autop.nodes[nid_autop]\n                node = OpGraphNode(nid_next, [], [], node_autop.qnum)",
+     'violation', ['C17'], 'from_automaton: new nodes enumerate the wrong layer'),
+    ('opgraph.py', "                    edge_active = edge_autop.active(i) if isinstance(edge_autop.active, Callable) else edge_autop.active",
+     "                    edge_active = edge_autop.active(i) if callable(edge_autop.active) else edge_autop.active",
+     'silent', ['C17'], 'from_automaton: callable(.) for isinstance(., Callable) (benign)'),
 ]
 
 
